@@ -240,3 +240,86 @@ class CInit(Contract):
 
 
 DS_CONTRACTS = [CGetMem, CGetInt, CCheckRange, CIncIndex, CInit]
+
+
+# ------------------------------------------------------------------ the value half of the contracts, for in-range reads only
+# (used by the display properties: what a decoder shows is what these return; how out-of-range reads are refused is C05's)
+class _InRange:
+    modes = ('assert',)
+    prop = "C02"
+
+    def pre(self, S, inp):
+        return And(ds_invariant(inp['self']), in_range(inp['self'], inp['num_bytes']))
+
+
+class GetMemValue(_InRange, GetMem):
+    name = "DataStream.get_mem (in-range reads: exact bytes, cursor)"
+
+    def check(self, P, inp, old, out):
+        n, o, s = inp['num_bytes'], old['self'], inp['self']
+        P.prove(out.returned, "an in-range read returns")
+        if out.returned:
+            P.prove(Eq(blen(out.value), n), "result has exactly n bytes")
+            P.prove(same_view(out.value, view(o.data, o.index, n)), "result is data[index:index+n]")
+            P.prove(Eq(field(s, 'index'), o.index + n), "cursor advanced by exactly n")
+
+
+class GetIntValue(_InRange, GetInt):
+    name = "DataStream.get_int (in-range reads: big-endian value, cursor)"
+    WIDTHS = [1, 2, 3, 4, 8]
+
+    def inputs(self, S):
+        return dict(self=mk_stream(S), num_bytes=S.choice("num_bytes_k", self.WIDTHS))
+
+    def check(self, P, inp, old, out):
+        n, o, s = inp['num_bytes'], old['self'], inp['self']
+        P.prove(out.returned, "an in-range read returns")
+        if out.returned:
+            if isinstance(n, int):
+                P.prove(Eq(out.value, be(o.data, o.index, n)), "result is the big-endian value of data[index:index+n]")
+            P.prove(Eq(field(s, 'index'), o.index + n), "cursor advanced by exactly n")
+
+
+class IncIndexValue(_InRange, IncIndex):
+    name = "DataStream.inc_index (in-range skips: cursor)"
+
+    def check(self, P, inp, old, out):
+        n, o, s = inp['num_bytes'], old['self'], inp['self']
+        P.prove(out.returned, "an in-range skip returns")
+        if out.returned:
+            P.prove(Eq(field(s, 'index'), o.index + n), "cursor advanced by exactly n")
+
+
+class InitValue(Init):
+    prop = "C02"
+    modes = ('assert',)
+    name = "DataStream.__init__ (cursor at 0, size of the data)"
+
+
+class GetIntValue1248(GetIntValue):
+    name = "DataStream.get_int (in-range reads of 1, 2, 4, 8 bytes: big-endian value, cursor)"
+    WIDTHS = [1, 2, 4, 8]
+
+
+class GetIntValue124(GetIntValue):
+    name = "DataStream.get_int (in-range reads of 1, 2, 4 bytes: big-endian value, cursor)"
+    WIDTHS = [1, 2, 4]
+
+
+class GetIntValue12(GetIntValue):
+    name = "DataStream.get_int (in-range reads of 1, 2 bytes: big-endian value, cursor)"
+    WIDTHS = [1, 2]
+
+
+class GetIntValue24(GetIntValue):
+    name = "DataStream.get_int (in-range reads of 2, 4 bytes: big-endian value, cursor)"
+    WIDTHS = [2, 4]
+
+
+def value_units(widths):
+    """the in-range halves of the DataStream contracts for a decoder that reads integers of these widths"""
+    g = {(1, 2, 4, 8): GetIntValue1248, (1, 2, 4): GetIntValue124, (1, 2): GetIntValue12, (2, 4): GetIntValue24, (): None}[tuple(widths)]
+    return [GetMemValue, IncIndexValue, InitValue] + ([g] if g else [])
+
+
+VALUE_UNITS = [GetMemValue, GetIntValue, IncIndexValue, InitValue]
